@@ -128,6 +128,11 @@ CASES = {
     "sentinel": [({1: 5}, 1), ({1: None}, 1), ({}, 3)],
     "fstr": [("ab", "c"), ("", "")],
     "int_or_bool": [(True,), (3,), (None,), ("s",)],
+    "max_of_seq": [([3, 1, 4],), ([7],), ([],), ([-2, -5],)],
+    "ifexp_in_comp": [([1, 2, 3], 2), ([], 0), ([5, 5], 5)],
+    "dictcomp_get": [([1, 2, 3], 2), ([1, 2, 3], 9), ([], 1), ([4], 4)],
+    "del_tail": [([1, 2, 3, 4], k) for k in (0, 2, 4, 7)],
+    "static_ifexp": [(3,), (0,)],
 }
 
 
